@@ -169,7 +169,7 @@ def queries(h, cfg):
             scyc = is1(f.sig(sub.cyc))
             bad.append(z3.And(core, scyc != cyc))
             bad.append(z3.And(z3.Not(own), scyc))
-            sel_ = z3.And(core, cyc)
+            sel_ = core          # the ADDRESS-selected subordinate receives the request unmodified, whatever cyc is
             req = [f.sig(sub.we) != f.sig(bus.we), f.sig(sub.stb) != f.sig(bus.stb),
                    f.sig(sub.dat_w) != z3.Extract(sub.data_width - 1, 0, f.sig(bus.dat_w))]
             if not scfg["sparse"]:
